@@ -34,16 +34,16 @@ def renderSpec (r : SpecResult) : String :=
       (match d.pos with | none => "-" | some p => toString p.off ++ "/" ++ toString p.line ++ "/" ++ toString p.col)) ++
   " L=" ++ ";".intercalate (r.levels.map fun l => assocInt l.assoc ++ ":" ++ sortedJoin (l.handles.map hexHandle))
 
-/-- lines of a (bullet-formatted) MultiError, as the harness canonicalises them: header, then every
-    line of every error, trimmed, sorted -/
+/-- lines of a (bullet-formatted) MultiError, as the harness prints them: header, then every
+    line of every error, trimmed, in the order reported -/
 def renderErrLines (errs : List String) : String :=
   let header := if errs.length == 1 then "1 error occurred:" else toString errs.length ++ " errors occurred:"
   let lines := errs.flatMap fun e => (e.splitOn "\n").map fun l => (l.trimAscii).toString
-  sortedJoin ((header :: lines).filter (· ≠ "") |>.map hexOfString)
+  ",".intercalate ((header :: lines).filter (· ≠ "") |>.map hexOfString)
 
-/-- the harness' canonical form of an arbitrary error text: its non-empty trimmed lines, sorted -/
+/-- the harness' form of an arbitrary error text: its non-empty trimmed lines -/
 def canonMessage (msg : String) : String :=
-  sortedJoin (((msg.splitOn "\n").map fun l => (l.trimAscii).toString).filter (· ≠ "") |>.map hexOfString)
+  ",".intercalate (((msg.splitOn "\n").map fun l => (l.trimAscii).toString).filter (· ≠ "") |>.map hexOfString)
 
 def endMessage (file : String) : ByteEnd → String
   | .eof => "EOF"
